@@ -212,7 +212,7 @@ def _answer(p, t, st, code_ok):
 
 def _circuit_waits(ops):
     """ops over one circuit: 0 LAUNCHED 1 EXTENDED 2 BUILT 3 CLOSED 4 FAILED (Tor events, if admissible),
-    5 when_built() 6 when_closed() 7 close() 8 Tor acknowledges the oldest unanswered command"""
+    5 when_built() 6 when_closed() 7 close() 9 close(IfUnused=True) 8 Tor acknowledges the oldest unanswered command"""
     state, p, t = new_state()
     model = TorModel(ncirc=1, nstream=0)
     st = {'answered': 0}
@@ -243,6 +243,8 @@ def _circuit_waits(ops):
                 closed.append(fakes.Outcome(circ.when_closed()))
             elif op == 7:
                 closes.append(fakes.Outcome(circ.close()))
+            elif op == 9:
+                closes.append(fakes.Outcome(circ.close(IfUnused=True)))      # the same request with Tor's one flag
             else:
                 assume(_answer(p, t, st, not gone))
             # ---- monitors after every step
@@ -329,12 +331,12 @@ def _ops(vals, admissible):
     return [api.pick_from(v, admissible) for v in vals]
 
 
-_CW = (0, 1, 2, 3, 4, 5, 6, 7, 8)
+_CW = (0, 1, 2, 3, 4, 5, 6, 7, 8, 9)
 
 
-@cond(quick=dict(parts=[{'o2': a} for a in _CW[1:]], budget=100))
+@cond(quick=dict(parts=[{'o2': a} for a in _CW[1:]], budget=150))
 def c08_circuit_waits(o2: int, o3: int, o4: int, o5: int, o6: int) -> str:
-    """LAUNCHED, then 5 operations from {EXTENDED, BUILT, CLOSED, FAILED, when_built, when_closed, close, ack}"""
+    """LAUNCHED, then 5 operations from {EXTENDED, BUILT, CLOSED, FAILED, when_built, when_closed, close, close(IfUnused), ack}"""
     ops = [0, o2] + _ops([o3, o4, o5, o6], _CW[1:])
     with api.no_tracing():       # every choice is concrete by now
         return _circuit_waits(ops)
